@@ -472,6 +472,24 @@ pub fn consistent_scripts(b: &[u8], lay: &Layout) -> Vec<(String, Vec<Edit>)> {
         out.push(("context: field modulus of length 0".into(), vec![Edit::Set { off: *lo, len: *ll, value: 0 }, Edit::Splice { off: *ps, remove: n, insert: vec![] }]));
         out.push(("context: field modulus of 255 bytes".into(), vec![Edit::Set { off: *lo, len: *ll, value: 255 }, Edit::Splice { off: *ps, remove: n, insert: vec![0xffu8; 255] }]));
     }
+    // ---- the proof-of-work nonce replaced by values that a non-injective absorption would confuse with it
+    if let Some(nf) = field("pow_nonce") {
+        let n0 = read_le(b, nf.off, 8);
+        let (m62, m64) = (4611624995532046337u64, 18446744069414584321u64);
+        let mut vals: Vec<u64> = vec![0, 1, n0.wrapping_add(1), m62, m64, 1 << 63, u64::MAX];
+        for k in 1..=3u64 {
+            vals.push(n0.wrapping_add(m62.wrapping_mul(k)));
+        }
+        vals.push(n0.wrapping_add(m64));
+        vals.push(n0.wrapping_sub(m64));
+        vals.sort();
+        vals.dedup();
+        for v in vals {
+            if v != n0 {
+                out.push((format!("proof-of-work nonce replaced by {}", if v == m62 { "the 62-bit modulus".to_string() } else if v == m64 { "the 64-bit modulus".to_string() } else if v == n0.wrapping_add(m64) || v == n0.wrapping_sub(m64) { "nonce +- the 64-bit modulus".to_string() } else if v.wrapping_sub(n0) % m62 == 0 { "nonce + a multiple of the 62-bit modulus".to_string() } else { format!("{v:#x}") }), vec![Edit::Splice { off: nf.off, remove: 8, insert: v.to_le_bytes().to_vec() }]));
+            }
+        }
+    }
     // ---- FRI layers
     if let Some(nlf) = field("fri.num_layers") {
         let nl = b[nlf.off] as usize;
